@@ -12,6 +12,7 @@ import (
 	"github.com/thomasjungblut/go-sstables/simpledb"
 	"verif/internal/core"
 	"verif/shim/vsched"
+	"verif/shim/vtime"
 )
 
 // C05: concurrent Get/Put/Delete are linearizable while flushes and compactions run.
@@ -48,6 +49,9 @@ type dbScenario struct {
 	setup   []cop   // sequential prefix (not explored); "rot" = rotate + barrier
 	threads [][]cop // client threads
 	thresh  int
+	// bg: the real background compaction goroutine runs (its ticker is driven by the harness: op "tick"); a client may
+	// "close" the database; after the run no descriptor or mapping below the directory may remain (C19)
+	bg bool
 }
 
 func (d dbScenario) Name() string { return d.name }
@@ -83,7 +87,27 @@ func c05Scenarios() []dbScenario {
 	}
 }
 
+// c19BgScenarios: Close against the running background compaction goroutine (and the flusher).
+func c19BgScenarios() []dbScenario {
+	two := []cop{{"put", "a", "1"}, {"rot", "", ""}, {"put", "b", "1"}, {"rot", "", ""}}
+	return []dbScenario{
+		{name: "B1-close-vs-background-compaction", mem: 1 << 20, thresh: 1, bg: true, quickBound: 1, thoroughBound: 3,
+			setup: two, threads: [][]cop{{{"tick", "", ""}}, {{"close", "", ""}}}},
+		{name: "B2-close-vs-compaction-and-flush", mem: 50, thresh: 1, bg: true, quickBound: 1, thoroughBound: 3,
+			setup: two, threads: [][]cop{{{"tick", "", ""}}, {{"put", "c", bigVal}, {"close", "", ""}}}},
+		{name: "B3-close-vs-two-ticks", mem: 1 << 20, thresh: 1, bg: true, quickBound: 1, thoroughBound: 3,
+			setup: two, threads: [][]cop{{{"tick", "", ""}, {"tick", "", ""}}, {{"close", "", ""}}}},
+		{name: "B4-compaction-then-close-with-three-tables", mem: 1 << 20, thresh: 1, bg: true, quickBound: 1, thoroughBound: 2,
+			setup: append(append([]cop{}, two...), cop{"del", "a", ""}, cop{"rot", "", ""}), threads: [][]cop{{{"tick", "", ""}}, {{"get", "a", ""}, {"close", "", ""}}}},
+	}
+}
+
 func c05ScenarioByName(n string) schedScenario {
+	for _, s := range c19BgScenarios() {
+		if s.name == n {
+			return s
+		}
+	}
 	for _, s := range c05Scenarios() {
 		if s.name == n {
 			return s
@@ -140,9 +164,15 @@ func (d dbScenario) Exec(w *core.WCtx, prefix []int) (x schedExec) {
 		hops []hop
 	}
 	resCh := make(chan resMsg, len(d.threads))
+	closedCh := make(chan bool, len(d.threads))
+	vtime.ResetAll()
 	s := vsched.Run(prefix, func() {
 		vsched.Quiet(true)
-		db, err := simpledb.NewSimpleDB(dir, simpledb.DisableCompactions(), simpledb.MemstoreSizeBytes(d.mem),
+		cmpOpt := simpledb.DisableCompactions()
+		if d.bg {
+			cmpOpt = simpledb.CompactionRunInterval(time.Hour) // the shim's ticker only fires when the harness says so
+		}
+		db, err := simpledb.NewSimpleDB(dir, cmpOpt, simpledb.MemstoreSizeBytes(d.mem),
 			simpledb.CompactionFileThreshold(d.thresh), simpledb.WriteBufferSizeBytes(4096), simpledb.ReadBufferSizeBytes(4096))
 		if err == nil {
 			err = db.Open()
@@ -204,6 +234,16 @@ func (d dbScenario) Exec(w *core.WCtx, prefix []int) (x schedExec) {
 						} else {
 							h.Res = "ok"
 						}
+					case "tick":
+						vtime.Fire()
+						h.Res = "ok"
+					case "close":
+						if err := db.Close(); err != nil {
+							h.Res = "ERR:" + err.Error()
+						} else {
+							h.Res = "ok"
+						}
+						closedCh <- true
 					}
 					h.Ret = vsched.Now()
 					mine = append(mine, h)
@@ -215,6 +255,11 @@ func (d dbScenario) Exec(w *core.WCtx, prefix []int) (x schedExec) {
 		for range d.threads {
 			m := <-resCh
 			perThread[m.ti] = m.hops
+		}
+		select {
+		case <-closedCh:
+			return // a client closed the database: nothing to read any more
+		default:
 		}
 		// final sequential reads: they follow every client operation in real time
 		for _, k := range []string{"a", "b", "c"} {
@@ -237,6 +282,13 @@ func (d dbScenario) Exec(w *core.WCtx, prefix []int) (x schedExec) {
 	})
 	for _, t := range perThread {
 		hist = append(hist, t...)
+	}
+	if d.bg {
+		// everything is closed and every goroutine the database started has ended (a stuck one is reported as a
+		// deadlock by the scheduler): nothing below the directory may still be open or mapped
+		if fds, maps, det := entriesUnder(dir); fds+maps != 0 {
+			problems = append(problems, fmt.Sprintf("after Close returned %d descriptors and %d mappings below the database directory remain: %v", fds, maps, det))
+		}
 	}
 	x.Choices = append([]vsched.Choice{}, s.Trace[:s.NTrace]...)
 	x.Ops = len(hist)
@@ -291,7 +343,7 @@ func historyClass(hist []hop) string {
 func linearizable(hist []hop, init map[string]string) (bool, string) {
 	var ops []hop
 	for _, h := range hist {
-		if h.Op.Op != "compact" {
+		if h.Op.Op != "compact" && h.Op.Op != "tick" && h.Op.Op != "close" {
 			ops = append(ops, h)
 		}
 	}
